@@ -1,5 +1,8 @@
 -- Root of the `Verif` library: models, lemmas and property theorems.
 import Verif.Model.Align
+import Verif.Model.EditDist
 import Verif.Model.SoundClass
 import Verif.Props.C01
 import Verif.Props.C02
+import Verif.Props.C03
+import Verif.Props.C03Edit
